@@ -81,6 +81,38 @@ Definition disc_calls (c : cfg) (obs : list eff) : list (N * list pv) :=
                             (handlers c ++ ns_handlers c)) (calls_of obs).
 Definition mentions (sid : str) (args : list pv) : bool := existsb (pv_eqb (PStr sid)) args.
 
+(* how often the disconnect handler of a namespace runs when one of its clients goes away
+   (None = not constrained): once if it returns and fits (prefix, sid, reason) or the legacy
+   (prefix, sid) - catch-all targets get the namespace prepended -, never if it cannot be called
+   with either (TypeError before its body), never if nobody is responsible *)
+Definition arity_fits (c : cfg) (h : N) (n : nat) : bool :=
+  match aget N.eqb (behav c) h with
+  | Some b => match h_arity b with Some k => Nat.eqb k n | None => true end
+  | None => false
+  end.
+Definition disc_expected (c : cfg) (ns : str) : option nat :=
+  match responsible c ev_disconnect ns [] with
+  | Some (Some h, pre) =>
+      match outcome_of c h with
+      | Some (Returns _) =>
+          Some (if arity_fits c h (List.length pre + 2) || arity_fits c h (List.length pre + 1) then 1 else 0)%nat
+      | _ => None
+      end
+  | _ => Some O
+  end.
+
+(* any client that stops being connected in this step had its disconnect handler run exactly
+   once in this step (when one is responsible), any other not at all *)
+Definition c04_once (c : cfg) (s s' : srv) (obs : list eff) : bool :=
+  forallb (fun x =>
+             let '(ns, sid, _) := x in
+             let gone := negb (is_connected (mg s') (Some sid) ns) || negb (is_member (mg s') sid) in
+             let n := List.length (filter (fun ha => mentions sid (snd ha)) (disc_calls c obs)) in
+             if is_connected (mg s) (Some sid) ns && gone then
+               match disc_expected c ns with Some k => Nat.eqb n k | None => true end
+             else Nat.eqb n 0)
+          (all_sids (mg s)).
+
 Definition c04_step (c : cfg) (s : srv) (o : op) (obs : list eff) : bool :=
   if has_actions c then true else
   let s' := fst (step c s o) in
@@ -92,22 +124,7 @@ Definition c04_step (c : cfg) (s : srv) (o : op) (obs : list eff) : bool :=
       | None => true
       end
   | _ => true
-  end &&
-  (* any client that stops being connected in this step had its disconnect handler run exactly
-     once in this step (when one is responsible), any other at most... none *)
-  forallb (fun x =>
-             let '(ns, sid, _) := x in
-             let gone := negb (is_connected (mg s') (Some sid) ns) || negb (is_member (mg s') sid) in
-             let n := List.length (filter (fun ha => mentions sid (snd ha)) (disc_calls c obs)) in
-             if is_connected (mg s) (Some sid) ns && gone then
-               match hid_for c ev_disconnect ns with
-               | Some h => match outcome_of c h with
-                           | Some (Returns _) => Nat.eqb n 1
-                           | _ => true end
-               | None => Nat.eqb n 0
-               end
-             else Nat.eqb n 0)
-          (all_sids (mg s)).
+  end && c04_once c s s' obs.
 
 (* session ids announced in CONNECT packets are pairwise distinct over the whole history *)
 Definition connect_sid (piece : pv) : option pv :=
